@@ -168,20 +168,31 @@ def merged_rule(ctx):
     I = parser_interp(ctx.model)
     I.merge_ifs = False
     prove_helpers(ctx, I)
-    st = State()
-    st.cls['GP'] = GP
+    from .rules_c18 import stale_state
     val = I.symbol('VALUE_S')
-    res = I.run_method(st, GP, 'buildCommand', Obj('GP'), [Str('M204')], {'S': val, 'P': Num(I.symbol('VALUE_P').p, False), 'T': NONE})
+    # the parser instance is shared and re-used: it starts out holding whatever the previous command left behind
+    res = []
+    for kwargs, want in (({'S': val, 'P': Num(I.symbol('VALUE_P').p, False), 'T': NONE}, r'^\S+ S\{\} P\{\} T$'), ({}, r'^[^ ]+$')):
+        st = stale_state()
+        for (s, v) in I.run_method(st, GP, 'buildCommand', Obj('GP'), [Str('M204')], dict(kwargs)):
+            res.append((s, v, want, bool(kwargs)))
     n = 0
-    for (s, v) in res:
+    for (s, v, want, has_params) in res:
         if isinstance(v, Raised) or not isinstance(v, Cat):
             continue        # configured code that is not a G/M/T code: rejected or rendered as raw text
         n += 1
         ctx.instance('C07.R3', repr(v)[:60])
         skel = v.skeleton()
-        if not re.match(r'^\S+ S\{\} P\{\} T$', skel):
+        stale = [part for part in v.args() if 'STALE.' in repr(part[1])]
+        if stale:
+            ctx.report('C07.R3', 'GcodeParser.buildCommand', 'merged command carries text of an earlier command',
+                       'buildCommand renders "%s" where a spliced part is left over from whatever the shared parser parsed or '
+                       'built before (%r): a parameterless merged command inherits foreign parameters' % (skel, stale[0][1]))
+            continue
+        if not re.match(want, skel):
             ctx.report('C07.R3', 'GcodeParser.buildCommand', 'merged command "%s"' % skel,
-                       'expected the code followed by one word per recorded letter (value-less letters as flags)')
+                       'expected the code followed by one word per recorded letter (value-less letters as flags)'
+                       if has_params else 'expected the bare code for a merged command without parameters')
         for part in v.args():
             ctx.instance('C07.R2', ('merged', part[2], part[3]))
             if not plain_decimal_proof(s, part):
